@@ -182,3 +182,19 @@ Theorem C16_word_key_safe_proof first k j : forallb is_word k = true ->
 Proof.
   intros H. apply C16_key_safe_proof. rewrite forallb_forall in *. intros b Hb. apply word_plain. auto.
 Qed.
+
+(* ------------------------------------------------------------------ true/false: ASCII case only *)
+Lemma fold_eq_ascii w : forall s, fold_eq w s = true <-> map ascii_lower s = w.
+Proof.
+  induction w as [|c w IH]; intros [|b r]; cbn [fold_eq map]; split; intros H; try discriminate; try reflexivity.
+  - apply andb_true_iff in H as [H1 H2]. apply N.eqb_eq in H1. apply IH in H2. congruence.
+  - inversion H; subst. rewrite N.eqb_refl. cbn [andb]. apply IH. reflexivity.
+Qed.
+
+(* the code as found (strings.EqualFold) wrote the capture fal<U+017F>e as the boolean false: the
+   member does not decode to the captured text; the repaired code writes it as a string *)
+Definition long_s_false : bytes := [102; 97; 108; 197; 191; 101].
+
+Lemma bool_asfound_refuted_proof :
+  exists v, infer_asfound v = JBool false /\ member_ok_b v (infer_asfound v) = false /\ infer v = JStr v.
+Proof. exists long_s_false. vm_compute. auto. Qed.
